@@ -455,7 +455,7 @@ theorem rowKind_first_cell (c : Cell) (r1 r2 : List Cell) (h : r1.isEmpty = r2.i
 example :
     (segment [[.str "author:".toList, .str "x".toList], [.str "**t".toList], [.str "all".toList],
               [.none, .str "c".toList], [.str "stray".toList], [.str "k:".toList],
-              [.str "***d".toList], [.int 3], [], [.str ":::a".toList]]).map
+              [.str "***d".toList], [.int 3 "3.0".toList], [], [.str ":::a".toList]]).map
         (fun b => (b.ty, b.rows.length, b.first))
       = [(.metadata, 1, 0), (.table, 2, 1), (.blank, 2, 3), (.blank, 1, 5), (.directive, 2, 6),
          (.template, 1, 9)] := by decide
